@@ -211,6 +211,31 @@ theorem jmp_depth_restored_run (cfg : Cfg) (plugins : List Plugin) (ts : List Te
   obtain ⟨t, _, rfl⟩ := he
   exact ⟨rfl, rfl⟩
 
+theorem sum_map_length {α β} (f : α → List β) : ∀ (l : List α), (l.map (fun a => (f a).length)).sum = (l.flatMap f).length
+  | [] => rfl
+  | a :: l => by
+    have ih := sum_map_length f l
+    simp only [List.map_cons, List.sum_cons, List.flatMap_cons, List.length_append, ih]
+
+theorem testFailCount_in_process (cfg : Cfg) (plugins : List Plugin) (hsep : cfg.separate = false) :
+    testFailCount cfg plugins = fun t => (testFailures cfg plugins t).length := by
+  funext t; simp [testFailCount, hsep]
+
+theorem testRecords_in_process (cfg : Cfg) (plugins : List Plugin) (hsep : cfg.separate = false) :
+    testRecords cfg plugins = testFailures cfg plugins := by
+  funext t; simp [testRecords, hsep]
+
+/-- without `-p` the run's failure counter is the number of failing events -/
+theorem failureCount_in_process (cfg : Cfg) (plugins : List Plugin) (ts : List Test) (hsep : cfg.separate = false) :
+    (expectedCounts cfg plugins ts).failureCount = (expectedFailures cfg plugins ts).length := by
+  simp only [expectedCounts, expectedFailures, testFailCount_in_process cfg plugins hsep]
+  exact sum_map_length _ _
+
+/-- without `-p` nothing but the failing events is printed as a record -/
+theorem expectedRecords_in_process (cfg : Cfg) (plugins : List Plugin) (ts : List Test) (hsep : cfg.separate = false) :
+    expectedRecords cfg plugins ts = expectedFailures cfg plugins ts := by
+  simp only [expectedRecords, expectedFailures, testRecords_in_process cfg plugins hsep]
+
 /-- **failures_recorded_once**: the failure records printed in a run are, in order, exactly the
     failing events of each repetition (failed check, escaped exception per phase, plugin-reported
     error) — each once; and the failure counter of every repetition is their number. -/
@@ -218,13 +243,65 @@ theorem failures_recorded_once (cfg : Cfg) (plugins : List Plugin) (ts : List Te
     (hr : cfg.rethrow = false) :
     ∃ o, runAllTests cfg plugins ts n 0 = .ok o ∧
       failuresOf o.evs = (List.replicate n (expectedFailures cfg plugins ts)).flatten ∧
-      ∀ r ∈ o.reps, r.failureCount = (expectedFailures cfg plugins ts).length := by
+      ∀ r ∈ o.reps, r.failureCount = ((running cfg ts).map (testFailCount cfg plugins)).sum ∧
+        (cfg.separate = false → r.failureCount = (expectedFailures cfg plugins ts).length) := by
   obtain ⟨o, ho, oo⟩ := run_outcome_top cfg plugins ts n hr
   refine ⟨o, ho, oo.failures, ?_⟩
   rw [oo.reps]
   intro r hrm
   rw [(List.mem_replicate.mp hrm).2]
-  rfl
+  exact ⟨rfl, failureCount_in_process cfg plugins ts⟩
+
+/-- **recorded_once_with_separate_process** (`-p`): every failing event (failed check, escaped exception,
+    plugin-reported error — in the child's pre or post action alike) is printed exactly once, by the
+    child that ran the test, in order (`failures_recorded_once` holds unchanged); the parent prints ONE
+    further record "Failed in separate process", located at the test, for every child that recorded
+    at least one failing event, and counts one failure for it; a child without a failing event adds
+    nothing.  So with `-p` a repetition's failure counter is the number of failed tests, and it is zero
+    iff there was no failing event at all. -/
+theorem recorded_once_with_separate_process (cfg : Cfg) (plugins : List Plugin) (ts : List Test) (n : Nat)
+    (hr : cfg.rethrow = false) (hsep : cfg.separate = true) :
+    ∃ o, runAllTests cfg plugins ts n 0 = .ok o ∧
+      failuresOf o.evs = (List.replicate n (expectedFailures cfg plugins ts)).flatten ∧
+      recordsOf o.evs = (List.replicate n ((running cfg ts).flatMap (fun t =>
+        testFailures cfg plugins t ++ (if (testFailures cfg plugins t).isEmpty then [] else [sepRec cfg t])))).flatten ∧
+      (∀ r ∈ o.reps, r.failureCount = ((running cfg ts).filter (fun t => !(testFailures cfg plugins t).isEmpty)).length ∧
+        (r.failureCount = 0 ↔ expectedFailures cfg plugins ts = []) ∧ r.checkCount = 0) := by
+  obtain ⟨o, ho, oo⟩ := run_outcome_top cfg plugins ts n hr
+  have hcount : ∀ (l : List Test), (l.map (testFailCount cfg plugins)).sum =
+      (l.filter (fun t => !(testFailures cfg plugins t).isEmpty)).length := by
+    intro l
+    induction l with
+    | nil => rfl
+    | cons a l ih =>
+      cases ha : (testFailures cfg plugins a).isEmpty <;>
+        simp [testFailCount, hsep, ha, List.filter_cons, ih] <;> omega
+  refine ⟨o, ho, oo.failures, ?_, ?_⟩
+  · rw [oo.records]
+    have hrec : testRecords cfg plugins = fun t =>
+        testFailures cfg plugins t ++ (if (testFailures cfg plugins t).isEmpty then [] else [sepRec cfg t]) := by
+      funext t
+      cases hh : (testFailures cfg plugins t).isEmpty <;> simp [testRecords, hsep, hh]
+    simp only [flattenRep, expectedRecords, hrec]
+  · rw [oo.reps]
+    intro r hrm
+    rw [(List.mem_replicate.mp hrm).2]
+    refine ⟨hcount _, ?_, ?_⟩
+    · show ((running cfg ts).map (testFailCount cfg plugins)).sum = 0 ↔ _
+      rw [hcount, expectedFailures]
+      simp only [List.length_eq_zero_iff, List.filter_eq_nil_iff, List.flatMap_eq_nil_iff]
+      constructor
+      · intro h t ht
+        have := h t ht
+        simpa using this
+      · intro h t ht
+        simp [h t ht]
+    · show ((running cfg ts).map (testChecksCounted cfg)).sum = 0
+      have : testChecksCounted cfg = fun _ => 0 := by funext t; simp [testChecksCounted, hsep]
+      rw [this]
+      induction running cfg ts with
+      | nil => rfl
+      | cons a l ih => simpa using ih
 
 /-- each failing check is recorded with ITS OWN file and line; an escaping exception with the
     test's file and line -/
@@ -257,29 +334,33 @@ theorem testChecks_eq_c03 (cfg : Cfg) (t : Test) : testChecks cfg t = c03ChecksO
 /-- **summary_checks_are_c03_counts**: the "checks" figure of a repetition is the sum, over the tests
     that run and the statements that execute, of the counts property C03's model assigns to each
     check macro (`Asserts.assert_family_counts_one`, `compare_pass_counts_zero`, …). -/
-theorem summary_checks_are_c03_counts (cfg : Cfg) (plugins : List Plugin) (ts : List Test) :
+theorem summary_checks_are_c03_counts (cfg : Cfg) (plugins : List Plugin) (ts : List Test)
+    (hsep : cfg.separate = false) :
     (expectedCounts cfg plugins ts).checkCount = ((running cfg ts).map (c03ChecksOfTest cfg)).sum := by
   simp only [expectedCounts]
   congr 1
   apply List.map_congr_left
   intro t _
+  simp only [testChecksCounted, hsep, Bool.false_eq_true, if_false]
   exact testChecks_eq_c03 cfg t
 
 /-- **summary_counts_true**: every repetition prints one summary, and it carries the true counts
     (tests, run, checks, ignored, filtered out, failures) — for every verbosity, colour setting and
-    stream of clock readings; the check count is the sum of C03's per-statement counts. -/
+    stream of clock readings; the check count is the sum of C03's per-statement counts.  (With `-p`
+    the counters of the children are lost: `expectedCounts` then has one failure per failed child and
+    no checks — see `recorded_once_with_separate_process`.) -/
 theorem summary_counts_true (cfg : Cfg) (plugins : List Plugin) (ts : List Test) (n : Nat)
     (hr : cfg.rethrow = false) :
     ∃ o, runAllTests cfg plugins ts n 0 = .ok o ∧
       (summariesOf o.evs).map Prod.fst = List.replicate n (expectedCounts cfg plugins ts) ∧
       o.reps = List.replicate n (expectedCounts cfg plugins ts) ∧
-      (∀ r ∈ o.reps, r.checkCount = ((running cfg ts).map (c03ChecksOfTest cfg)).sum) := by
+      (cfg.separate = false → ∀ r ∈ o.reps, r.checkCount = ((running cfg ts).map (c03ChecksOfTest cfg)).sum) := by
   obtain ⟨o, ho, oo⟩ := run_outcome_top cfg plugins ts n hr
   refine ⟨o, ho, oo.summaries, oo.reps, ?_⟩
   rw [oo.reps]
-  intro r hrm
+  intro hsep r hrm
   rw [(List.mem_replicate.mp hrm).2]
-  exact summary_checks_are_c03_counts cfg plugins ts
+  exact summary_checks_are_c03_counts cfg plugins ts hsep
 
 /-- **printed_verdict_is_the_returned_verdict**: the condition `printTestsEnded` uses to choose between
     "Errors (" and "OK (" and the condition the runner's return value is computed from
@@ -335,13 +416,12 @@ theorem returnValue_zero_iff (ft fe : Nat) (h1 : ft < 4294967296) (h2 : fe < 429
     something. -/
 theorem exit_zero_iff (cfg : Cfg) (plugins : List Plugin) (ts : List Test) (n : Nat)
     (hr : cfg.rethrow = false)
-    (hsmall : n * (expectedFailures cfg plugins ts).length < 4294967296) (hn : n < 4294967296) :
+    (hsmall : n * (expectedCounts cfg plugins ts).failureCount < 4294967296) (hn : n < 4294967296) :
     ∃ o, runAllTests cfg plugins ts n 0 = .ok o ∧ (o.ret = 0 ↔ ∀ r ∈ o.reps, r.ok) := by
   obtain ⟨o, ho, oo⟩ := run_outcome_top cfg plugins ts n hr
   refine ⟨o, ho, ?_⟩
-  have hfc : (expectedCounts cfg plugins ts).failureCount = (expectedFailures cfg plugins ts).length := rfl
   have hisf := isFailure_iff (expectedCounts cfg plugins ts)
-  rw [oo.ret, oo.reps, returnValue_zero_iff _ _ (by rw [hfc]; exact hsmall) (by split <;> omega)]
+  rw [oo.ret, oo.reps, returnValue_zero_iff _ _ hsmall (by split <;> omega)]
   constructor
   · rintro ⟨h1, h2⟩ r hrm
     obtain ⟨hn0, rfl⟩ := List.mem_replicate.mp hrm
@@ -389,10 +469,12 @@ theorem clean_of_strings (cfg : Cfg) (t : Test) (loc : Loc) (msg : String)
     carrying the true counts; provided the free strings of the failing events (message, file names)
     are not themselves one of the three marker strings and no message is a lone ":". -/
 theorem console_reader_full (cfg : Cfg) (plugins : List Plugin) (ts : List Test) (n : Nat)
-    (hr : cfg.rethrow = false) (hclean : ∀ r ∈ expectedFailures cfg plugins ts, r.clean) :
+    (hr : cfg.rethrow = false) (hclean : ∀ r ∈ expectedRecords cfg plugins ts, r.clean) :
     ∃ o, runAllTests cfg plugins ts n 0 = .ok o ∧
       scanFailures (toksOf cfg.color o.evs) =
-        ((List.replicate n (expectedFailures cfg plugins ts)).flatten).map FailRec.printed ∧
+        ((List.replicate n (expectedRecords cfg plugins ts)).flatten).map FailRec.printed ∧
+      (cfg.separate = false → scanFailures (toksOf cfg.color o.evs) =
+        ((List.replicate n (expectedFailures cfg plugins ts)).flatten).map FailRec.printed) ∧
       scanSummaries (toksOf cfg.color o.evs) = (summariesOf o.evs).map (fun x => x.1.printedSummary x.2) ∧
       (scanSummaries (toksOf cfg.color o.evs)).map (fun p => (p.ok, p.tests, p.ran, p.checks, p.ignored, p.filtered, p.failures))
         = List.replicate n
@@ -401,16 +483,20 @@ theorem console_reader_full (cfg : Cfg) (plugins : List Plugin) (ts : List Test)
   obtain ⟨o, ho, oo⟩ := run_outcome_top cfg plugins ts n hr
   have hce : CleanEvs o.evs := by
     refine ⟨oo.safe, ?_⟩
-    rw [oo.failures]
+    rw [oo.records]
     intro r hrm
     simp only [flattenRep, List.mem_flatten, List.mem_replicate] at hrm
     obtain ⟨l, ⟨_, rfl⟩, hrl⟩ := hrm
     exact hclean r hrl
   have hs := scanSummaries_toksOf cfg.color o.evs hce
-  refine ⟨o, ho, ?_, hs, ?_⟩
-  · unfold scanFailures
-    rw [scanFrom_toksOf cfg.color o.evs [] hce, oo.failures]
+  have hf : scanFailures (toksOf cfg.color o.evs) =
+      ((List.replicate n (expectedRecords cfg plugins ts)).flatten).map FailRec.printed := by
+    unfold scanFailures
+    rw [scanFrom_toksOf cfg.color o.evs [] hce, oo.records]
     rfl
+  refine ⟨o, ho, hf, ?_, hs, ?_⟩
+  · intro hsep
+    rw [hf, expectedRecords_in_process cfg plugins ts hsep]
   · rw [hs, List.map_map]
     have hm := oo.summaries
     have : (summariesOf o.evs).map ((fun p : PrintedSummary => (p.ok, p.tests, p.ran, p.checks, p.ignored, p.filtered, p.failures)) ∘
@@ -578,11 +664,11 @@ theorem rethrow_quiet_same (cfg : Cfg) (plugins : List Plugin) (ts : List Test) 
     not restored (the process is expected to end). -/
 theorem rethrow_propagates (cfg : Cfg) (plugins : List Plugin) (pre : List Test) (t : Test) (post : List Test)
     (ph : Phase) (k : ExcKind) (n : Nat)
-    (hx : cfg.exceptions = true) (hr : cfg.rethrow = true) (hq : ∀ x ∈ pre, QuietTest cfg x)
+    (hx : cfg.exceptions = true) (hr : cfg.rethrow = true) (hsep : cfg.separate = false) (hq : ∀ x ∈ pre, QuietTest cfg x)
     (hs : shouldRun cfg t = true) (hw : willRun cfg t = true) (hf : firstThrow cfg t = some (ph, k)) (hn : 0 < n) :
     ∃ p, runAllTests cfg plugins (pre ++ t :: post) n 0 = .error (.propagated p) ∧
       LeftOutcome cfg plugins pre t ph k 0 p :=
-  runAllTests_propagates cfg plugins pre t post ph k n 0 hx hr hq hs hw hf hn inBuf_top.1 inBuf_top.2
+  runAllTests_propagates cfg plugins pre t post ph k n 0 hx hr hsep hq hs hw hf hn inBuf_top.1 inBuf_top.2
 
 /-! ## the int cast with a real program -/
 
@@ -618,7 +704,8 @@ theorem exit_value_wraps_program (exc : Bool) :
     rw [expectedFailures_replicate (plainCfg exc) [] failingTest (by cases exc <;> decide) (by cases exc <;> decide)]
     have : (testFailures (plainCfg exc) [] failingTest).length = 1 := by cases exc <;> decide
     rw [this]
-  have hfc : (expectedCounts (plainCfg exc) [] (List.replicate 4294967296 failingTest)).failureCount = 4294967296 := hlen
+  have hfc : (expectedCounts (plainCfg exc) [] (List.replicate 4294967296 failingTest)).failureCount = 4294967296 := by
+    rw [failureCount_in_process _ _ _ rfl]; exact hlen
   have hisf : (expectedCounts (plainCfg exc) [] (List.replicate 4294967296 failingTest)).isFailure = true := by
     rw [isFailure_iff]; intro hok; rw [Result.ok, hfc] at hok; exact absurd hok.1 (by decide)
   refine ⟨o, ho, ?_, ?_⟩
@@ -724,6 +811,16 @@ example :
                               .check .strcmp false ⟨"f.cpp", 13⟩ "s", .mark 3] }] 1 0).toOption.map
       (fun o => (marksIn o.evs, o.reps.map (·.checkCount), (failuresOf o.evs).map (·.line)))
     = some ([(.body, 1), (.body, 2)], [2], [13]) := by
+  decide
+
+/-- `-p`: a test whose ONLY failing event is reported by a plugin's post action in the child: the child
+    prints it once, the parent adds "Failed in separate process", counts one failure, the run fails -/
+example :
+    ((runAllTests { exCfg true with separate := true } [exPlugin]
+        [{ exTest with setup := [.mark 1], body := [.checkPass], teardown := [] }] 1 0).toOption.map
+      (fun o => ((recordsOf o.evs).map (fun r => (r.file, r.line, r.msg)), o.reps.map (fun r => (r.failureCount, r.checkCount)),
+                 o.ret, marksIn o.evs))
+    == some ([("h.c", 7, "leak"), ("f.cpp", 10, "Failed in separate process")], [(1, 0)], 1, [(.setup, 1)])) = true := by
   decide
 
 end Runner
